@@ -47,7 +47,7 @@ CLAIMED = {
     "C11": {
         "text": "Proof (Lean 4): the parser model is a fold of per-line results (line_local), a line whose result is skip is the identity wherever it stands (bad_line_identity), parsing a concatenation "
         "is parsing the second text on top of the first and agrees with _merge_configs on every rule list, log and log-full (parse_merge_hom; default_not_hom records the dead field), and the quoted-message syntax "
-        "round-trips for every message over all characters and every pattern without trailing whitespace (unescape_escape, extract_render, by induction). Totality of the real parser (no exception escapes) and the "
+        "round-trips for every message over all characters and every pattern without trailing whitespace (unescape_escape, extract_render, by induction). White space around a line never changes its meaning and a white-space-only line is skipped, for every line and text (line_congr, line_padding_invariant, text_padding_invariant, blank_line_skip). Totality of the real parser (no exception escapes) and the "
         "rule-level round trip are established by correspondence and by the direct oracle, not by a theorem; the last sentence (broken config never allows) is exercised on the real hook under config-layer faults.",
         "design_ref": "DESIGN.md §8 C11",
         "technique": "Lean 4 theorems (R4 parser fold, escape round trip by induction) + T1 correspondence on parse_config and helpers + round-trip / bad-line / hook-fault failing-input search",
@@ -71,7 +71,7 @@ CLAIMED = {
     "C05": {
         "text": "Proof (Lean 4): for every World, a simple command whose program is on no table, matches no rule and is not a wrapper is answered ask with its description unless the help/version predicate holds "
         "(unknown_asks, unknown_never_allowed), that predicate is exactly the documented shape (help_shape), parse errors / empty text / no nodes / unknown node kinds yield ask, _strip_quotes can only turn n, \"n\" or 'n' into n "
-        "(name_spelling) and - as obligations on the tables regenerated from the source on every run - every table name is plain, no launcher is on the always-safe list, the help tuples are the documented ones. "
+        "(name_spelling) and - as obligations on the tables regenerated from the source on every run - every table name is plain, no launcher is on the always-safe list, the help tuples are the documented ones. The command text loses only blanks, tabs and newlines and only at its ends, for every text (strip_removes_only_blanks, strip_ends_clean, strip_idem), and such padding never changes a verdict (analyze_padding_invariant). "
         "Tied to analyzer.py by differential runs on unknown names and malformed text; failing-input search with the program name computed by real bash.",
         "design_ref": "DESIGN.md §8 C05",
         "technique": "Lean 4 theorems + decide-checked obligations on T0-generated tables + T1 correspondence + bash-grounded failing-input search",
